@@ -327,6 +327,7 @@ fn part_parse_short(rep: &mut Report, thorough: bool) {
 }
 
 /// PEM texts whose block carries RFC 1421 style header lines (what encrypted legacy keys have) before the body.
+#[cfg(feature = "crypto")]
 fn part_pem_headers(rep: &mut Report, thorough: bool) {
     let w = Watch { slow: AtomicU64::new(0) };
     let lines = ["Proc-Type: 4,ENCRYPTED", "Proc-Type: 4,MIC-ONLY", "Proc-Type:", "Proc-Type: ENCRYPTED", "DEK-Info: AES-256-CBC,00112233445566778899AABBCCDDEEFF", "DEK-Info: AES-256-CBC", "DEK-Info:", "DEK-Info: ,", "DEK-Info: ,,", "X-Other: 1", ":", "NoColonHere", " folded continuation", "Proc-Type: 4,ENCRYPTED\r"];
